@@ -233,6 +233,28 @@ def compact_chunks_full : Prop :=
     (out.Pairwise fun a b => a.maxt < b.mint) ∧
     some (out.flatMap (·.samples)) = chainMerge (series.flatten.map (·.samples))
 
+/-- `compact_chunks_full` as literally stated is FALSE, even for clean float data: it demands equality
+    of VALUES with `chainMerge` of the chunks in `series.flatten` order, but which input wins among equal
+    timestamps depends on the order the iterators enter the chain's heap, and the compacting merger chains
+    `overlapped ++ [curr]`, not the flattened order.  Three one-chunk series `[1→1]`, `[1→2]`, `[2→3]`:
+    the merger keeps value 1 at t = 1, `chainMerge` of the flattened inputs keeps value 2.  (Prometheus
+    leaves the winner among duplicate timestamps with different values unspecified, so this is not a
+    defect.)  Two more reasons, each sufficient: a chunk that overlaps nothing is passed through with its
+    bytes, so a histogram keeps its counter-reset hint and a sample at `MinInt64` survives, whereas
+    `chainMerge` resets the hint (`Chain.atSample`) and drops `MinInt64` (FC19a); and the statement has no
+    well-formedness hypothesis on chunk metas.  The provable content — order/disjointness, timestamps =
+    sorted de-duplicated union, every value from an input — is `compact_chunks`. -/
+theorem compact_chunks_full_witness : ¬ compact_chunks_full := by
+  intro h
+  have := (h [[Chunk.ofSamples [⟨1, .float, 1⟩]], [Chunk.ofSamples [⟨1, .float, 2⟩]], [Chunk.ofSamples [⟨2, .float, 3⟩]]]
+    [Chunk.ofSamples [⟨1, .float, 1⟩], Chunk.ofSamples [⟨2, .float, 3⟩]] (by decide)).2
+  revert this
+  decide
+
+/-- pass-through keeps a histogram's counter-reset hint, reading through the chain resets it -/
+example : compactAll [[Chunk.ofSamples [⟨1, .hist, 5⟩]]] = ([Chunk.ofSamples [⟨1, .hist, 5⟩]], .fin) ∧
+    chainMerge [[⟨1, .hist, 5⟩]] = some [⟨1, .hist, 4⟩] := by decide
+
 /-- identical duplicate chunks collapse (instance; the general clause is judged on every run) -/
 theorem identical_chunks_collapse_example :
     compactAll [[Chunk.ofSamples [⟨1, .float, 1⟩, ⟨5, .float, 2⟩]],
